@@ -1,6 +1,7 @@
 import GojaModel.C01.EmitProof
 import GojaModel.C01.StmtProof
 import GojaModel.C01.RetExact
+import GojaModel.C01.Stmt2
 import GojaModel.C01.Flat
 import GojaModel.C01.Scope
 /-!
@@ -93,6 +94,29 @@ theorem emitStmt_flat_sound (cfg : Cfg) (s : Stmt) (nr : Bool) (h : Nat)
     (hr : RunIn code lo (lo + (emitS cfg s nr).len) ⟨lo, h, vs, fs⟩ t) :
     Within code lo (emitS cfg s nr).len h h vs fs t :=
   flat_sound (emitS_ht cfg s nr h) code lo vs fs hp t hr
+
+/-! ### (a) statements with `break` / `continue` and `try` -/
+
+/-- The statement fragment extended with unlabelled `break` / `continue` and `try` / `catch` /
+`finally`, `catch (e)` with an identifier parameter kept on the stack (model `S2` / `emit2`, Stmt2.lean: the jump placeholders patched by `leaveBlock`, the continue targets of the
+three loop forms, the block exit code — one `leaveTry` per try block a branch leaves, `saveResult; leaveTry; loadResult`
+per try block a `return` leaves —, the layout of compileTryStatement with both handler offsets, and the result
+bookkeeping of statement lists around branch statements: leadingBranch, containsBranch, dummy mode, a finally block that
+ends in a branch): every statement, compiled inside (`lc = some _`) or outside a loop, under any number of try blocks, for
+both values of `needResult`, is height-neutral — the try block, the catch clause (entered by the handler with the
+exception value on the saved height, `unwind_height`, and popping it) and the finally block each are — and every
+`break` / `continue` reaches its jump target with exactly the height that target expects, the entry height `hl` of the
+innermost loop (`ctx lc hl`; outside a loop compilation stops) — the statement itself sitting `slots ex` operands higher,
+one per catch parameter whose scope it is in, which the block exit code (`exitCode ex`: `leaveTry` / `leaveBlock` copies,
+innermost first) pops on the way.  So a loop left or restarted from any depth of `if` /
+block / try nesting never carries operands out of or around the loop. -/
+theorem emitStmt2_height (cfg : Cfg) (s : S2) (lc : Option Bool) (td : Nat) (ex : List Bool) (nr : Bool) (hl : Nat) :
+    H2 (ctx lc hl) (ctx lc hl) (emit2 cfg lc td ex s nr) (hl + slots ex) (hl + slots ex) :=
+  emit2_ht cfg s lc td ex nr hl _ rfl
+
+/-- a whole function / program body: no branch target outside (`none`), exit height = entry height -/
+theorem emitBody2_height (cfg : Cfg) (ss : SS2) (nr : Bool) (h : Nat) : H2 none none (emitBody2 cfg ss nr) h h :=
+  emit2_ht cfg (.block ss) none 0 [] nr h h rfl
 
 /-! ### (a) function-level leaks -/
 
